@@ -61,7 +61,7 @@ func (p *c10) doc(idx int, r *lib.Rand) (tree map[string]any, what []string) {
 		t, _ := v.(map[string]any)
 		return t, []string{"fixture:" + n}
 	}
-	g := &gen.SpecGen{R: r, Tag: fmt.Sprintf("d%d", idx), NoRefs: idx%7 == 3}
+	g := &gen.SpecGen{R: r, Tag: fmt.Sprintf("d%d", idx%3), NoRefs: idx%7 == 3}
 	tree = g.Clean()
 	switch idx % 5 {
 	case 0, 1, 2:
@@ -241,6 +241,18 @@ func (p *c10) Run(w *lib.Worker, idx int, r *lib.Rand) lib.Case {
 		return c
 	}
 
+	// a TWIN document is validated first in this process: generated like this one (same kind, same definition,
+	// path, operation and parameter names) from another random stream, so its content differs.  Whatever the library
+	// keeps beyond a validation under such names (a memo of resolved references, of parameters per operation, ...)
+	// now belongs to the twin; the fresh processes below validate this document alone.
+	var twin []byte
+	if tt, _ := p.doc(idx, lib.NewRand(w.Seed, "C10-twin", idx)); tt != nil {
+		twin = gen.JSON(tt)
+		for _, cont := range []bool{false, true} {
+			_ = sut.ValidateSpec(twin, sut.SpecOpts{Continue: cont, Strict: true})
+		}
+		c.Evals += 2
+	}
 	first := p.both(text)
 	c.Evals += 2
 	if !first[0].O.Loaded {
@@ -295,6 +307,10 @@ func (p *c10) Run(w *lib.Worker, idx int, r *lib.Rand) lib.Case {
 		p.session = sut.NewSpecSession()
 	}
 	for i, cont := range []bool{false, true} {
+		if twin != nil {
+			_ = p.session.Validate(twin, sut.SpecOpts{Continue: cont, Strict: true}) // the twin first, with the same validator object
+			c.Evals++
+		}
 		ro := p.session.Validate(text, sut.SpecOpts{Continue: cont, Strict: true})
 		c.Evals++
 		if ro.Panic != "" {
@@ -314,7 +330,17 @@ func (p *c10) Run(w *lib.Worker, idx int, r *lib.Rand) lib.Case {
 				o := sut.ValidateDoc(doc, sut.SpecOpts{Continue: cont, Strict: true})
 				c.Evals++
 				if key(o) != key(first[i].O) {
-					return fail(fmt.Sprintf("validating the same loaded document again (repetition %d, %s) gives another outcome: %s  vs first: %s", rep, first[i].Mode, key(o), key(first[i].O)), []any{first, o})
+					what := fmt.Sprintf("validating the same loaded document again (repetition %d, %s) gives another outcome: %s  vs first: %s", rep, first[i].Mode, key(o), key(first[i].O))
+					if o.Panic == "" && o.Valid == first[i].O.Valid && refWithValueSibling(tree) && onlyValueMessagesDiffer(o, first[i].O) {
+						// recorded finding: a $ref node with a sibling example / default is replaced, in the caller's parsed
+						// document, by what it refers to when its value is judged; the next validation of that loaded
+						// document finds another node there and judges the value differently (or not at all)
+						c.Known = []string{"ref-sibling-value-judged-on-the-callers-document-once"}
+						c.KnownWhat = what
+						c.Sample = sample
+						return c
+					}
+					return fail(what, []any{first, o})
 				}
 			}
 		}
@@ -322,6 +348,9 @@ func (p *c10) Run(w *lib.Worker, idx int, r *lib.Rand) lib.Case {
 	// repetitions in the same process, other validations in between
 	other := gen.JSON((&gen.SpecGen{R: r.Fork(), Tag: "other"}).Clean())
 	for rep := 0; rep < 2; rep++ {
+		if rep == 1 && twin != nil {
+			other = twin
+		}
 		_ = sut.ValidateSpec(other, sut.SpecOpts{Continue: rep%2 == 0, Strict: true})
 		again := p.both(text)
 		c.Evals += 3
@@ -393,4 +422,53 @@ func (p *c10) Finish(a *lib.Aggregate) (broken []string) {
 		broken = append(broken, "no invalid document: nothing could vary")
 	}
 	return
+}
+
+// refWithValueSibling tells whether the document holds an object with a $ref and an example or default beside it.
+func refWithValueSibling(v any) bool {
+	switch x := v.(type) {
+	case map[string]any:
+		if _, isRef := x["$ref"].(string); isRef {
+			_, e := x["example"]
+			_, d := x["default"]
+			if e || d {
+				return true
+			}
+		}
+		for _, e := range x {
+			if refWithValueSibling(e) {
+				return true
+			}
+		}
+	case []any:
+		for _, e := range x {
+			if refWithValueSibling(e) {
+				return true
+			}
+		}
+	}
+	return false
+}
+
+// onlyValueMessagesDiffer: every message which one outcome has and the other lacks speaks about an example or a
+// default value (its path runs through ".example" / ".default", or it is the "does not validate its schema" line).
+func onlyValueMessagesDiffer(a, b sut.SpecOutcome) bool {
+	count := map[string]int{}
+	for _, m := range append(append([]string{}, a.Errors...), a.Warnings...) {
+		count[m]++
+	}
+	for _, m := range append(append([]string{}, b.Errors...), b.Warnings...) {
+		count[m]--
+	}
+	n := 0
+	for m, k := range count {
+		if k == 0 {
+			continue
+		}
+		n++
+		if !(strings.Contains(m, ".example") || strings.Contains(m, ".default") || strings.Contains(m, "example value") || strings.Contains(m, "default value")) {
+			return false
+		}
+	}
+	return n > 0
 }
